@@ -184,6 +184,9 @@ def run_case(case: dict) -> dict:
         how, dlv = "ok", fr
         if case.get("wrongcrc"):
             how, dlv = "wrongcrc", fr[:1] + bytes([fr[1] ^ 0x5A]) + fr[2:]
+        elif case.get("wrongend_ss") is not None:
+            # everything of the end frame intact (unused-byte count, checksum) but the subcommand
+            how, dlv = "wrongend", bytes([(fr[0] & 0xFC) | case["wrongend_ss"]]) + fr[1:]
         elif case.get("wrongend"):
             how, dlv = "wrongend", bytes([case["wrongend"]]) + fr[1:]
         ev.append({"e": "send", "r": B(fr), "how": how, "dlv": B(dlv)})
@@ -262,10 +265,22 @@ def run_case(case: dict) -> dict:
                           size=None if size < 0 else size, block_transfer=True,
                           request_crc_support=case.get("crc", True))
             try:
-                pos = 0
-                for n in case.get("chunks") or [len(data)]:
-                    fp.write(data[pos:pos + n])
-                    pos += n
+                if case.get("raw_reuse"):
+                    # unbuffered stream: the caller feeds 7-byte pieces from ONE reused buffer
+                    chunk = bytearray(7)
+                    pos = 0
+                    while pos < len(data):
+                        piece = data[pos:pos + 7]
+                        chunk[:len(piece)] = piece
+                        w = fp.write(memoryview(chunk)[:len(piece)])
+                        pos += w if w else len(piece)
+                    for i in range(7):
+                        chunk[i] = 0xEE
+                else:
+                    pos = 0
+                    for n in case.get("chunks") or [len(data)]:
+                        fp.write(data[pos:pos + n])
+                        pos += n
             finally:
                 fp.close()
             ev.append({"e": "ret", "data": []})
